@@ -54,6 +54,19 @@ TARGETS = ("pathstr", "Path", "stream", "stringio")
 MODES = ("a", "w")
 
 NAMES_GIVEN = ("renamed_by_caller", "X9", "given_name")
+# what callers really pass as a name: the override is handed to the codec as it is
+NAME_ALPHABET = (
+    ("empty", ""),
+    ("plain", "renamed"),
+    ("hyphen", "L-proline"),
+    ("comma", "2,6-lutidine"),
+    ("dot", "dendrobine.opt"),
+    ("parentheses", "(R)-BINOL"),
+    ("blank", "pentane conformers"),
+    ("unicode", "na\u00efve-\u00c5ngstr\u00f6m-\u03b2"),
+    ("long", "a_name_of_two_hundred_characters_" + "x" * 167),
+    ("digits", "12345"),
+)
 HAVE_OPENBABEL = importlib.util.find_spec("openbabel") is not None
 
 
@@ -327,6 +340,15 @@ def reader_cells(order):
                             for nm in ("none", "given"):
                                 for parser in rot(PARSERS):
                                     yield {"op": "read", "func": func, "fmt": fmt, "fmtmode": fmtmode, "kind": kind, "suffix": sv, "otype": otype, "name": nm, "parser": parser}
+    # the name override alphabet, on every supported cell of the documented source kind
+    for func in rot(READERS):
+        for fmt in ("xyz", "mol2", "cdxml"):
+            if fmt == "cdxml" and func in ("loads", "loads_all"):
+                continue
+            for kind in ("pathstr", "Path") if func in ("load", "load_all") else ("str",):
+                for otype in rot(OTYPES):
+                    for k in range(len(NAME_ALPHABET)):
+                        yield {"op": "read", "func": func, "fmt": fmt, "fmtmode": "explicit", "kind": kind, "suffix": "agree", "otype": otype, "name": "given", "parser": "molli", "alpha": k}
     # cdxml retrieval by key (name not given: which of the two wins is not specified)
     for func in ("load",):
         for kind in ("pathstr", "Path"):
@@ -341,6 +363,8 @@ def read_sig(cell, symptom):
         # otype and parser of the cell it was first seen in are incidental
         return f"{cell['func']}|{kindsig(cell)}:{symptom}"
     p = "" if cell["parser"] == "molli" else f"|parser={'openbabel' if cell['parser']=='openbabel' else 'unknown'}"
+    if "alpha" in cell:
+        p += f"|name={NAME_ALPHABET[cell['alpha']][0]}"
     return f"{cell['func']}|{fmtclass(cell['fmt'])}|{kindsig(cell)}|{oclass(cell['otype'])}{p}:{symptom}"
 
 
@@ -442,6 +466,8 @@ def describe(oc):
 
 
 def run_reader_cell(ctx, fam, cell, given):
+    if "alpha" in cell:
+        given = NAME_ALPHABET[cell["alpha"]][1]
     got = call_reader(fam, cell, given)
     ctx.count(evaluations=1, transitions=1, traces=1)
     case = {"family": list(fam.spec), "cell": cell, "given": given}
@@ -501,7 +527,7 @@ def run_reader_cell(ctx, fam, cell, given):
         return
     ctx.nontrivial(key)
     bad_name = False
-    if cell["name"] == "given":
+    if cell["name"] == "given" and given:  # (an empty name is no override: the codec's own rule applies)
         nm = names_of(got[1])
         if any(n != given for n in nm):
             bad_name = True
@@ -752,7 +778,16 @@ def run_family(ctx, part):
     fam = Family(ctx, spec)
     try:
         ncell = 0
-        if sel == "options":
+        if sel == "keys":
+            from mc.props import c09_extra
+
+            c09_extra.run_key_cells(ctx, fam, given)
+        elif sel == "streams":
+            from mc.props import c09_extra
+
+            for cell in c09_extra.stream_cells(ctx.seed):
+                c09_extra.run_stream_cell(ctx, fam, cell, given)
+        elif sel == "options":
             from mc.props import c09_extra
 
             for cell in c09_extra.option_cells(ctx.seed):
@@ -796,6 +831,9 @@ def run(ctx):
         "path cells with an explicit format additionally x {suffix agrees, suffix names another supported format, unsupported suffix, no suffix}; "
         "plus NAME cells (c09_extra: multi-dot names, upper/mixed case suffix, dots in directory names, dot files, trailing dot, no suffix; fmt given and not given) "
         "and EXTENT cells (c09_extra: multi-record texts with a damaged 2nd / 3rd / last record or trailing garbage through every reader, otype and name); "
+        "KEY cells (c09_extra: ml.load(cdxml, key=K) for every label, every integer position incl. 0, -1 and one past the end, and '' - on the drawing and on a copy with the fragments stored in reverse order), "
+        "STREAM-KIND cells (c09_extra: dump into StringIO, file objects opened w / a / r+, NamedTemporaryFile, codecs.open, a write()-only object, a tee, an os.PathLike, a bytes path; load from the corresponding sources), "
+        "the name override drawn from an alphabet (empty, plain, hyphen, comma, dot, parentheses, blank, unicode, 200 characters, digits), "
         "OPTION cells (c09_extra: every keyword option a class-level dump_*/dumps_* method of the format knows, each non-default value, all together, and one unknown keyword, through dumps, dump -> StringIO / file stream / path); "
         "plus HISTORY cells (c09_hist): every entry point called twice with a change in between (same path overwritten with other content, "
         "twin paths, result edited by the caller, str then Path, same relative path after chdir; two dumps into one target in every mode pair); "
@@ -813,6 +851,8 @@ def run(ctx):
         "with fmt=None the format is pathlib's suffix of the path (after the LAST dot of the file name; a leading dot or a trailing dot gives no suffix); a suffix that is a supported format in other letter case may be refused with ValueError or read as that format",
         "extent cells demand what the class method does with the same damaged multi-record argument: the same structures or the same exception class (single-structure loaders read the first record only)",
         "history cells demand nothing new: the second call must equal the class method applied at that moment; handing out the identical object twice is not by itself a violation, only a visible difference is",
+        "a stream is whatever the class-level codec can write to (it only calls .write): expected is what obj.dump_<fmt>(target) does with the same kind of target; os.PathLike / bytes paths are not documented target kinds (str | Path | IO): they may be refused the way the class method refuses them or be written to as a path",
+        "cdxml key: the class-level codec is CDXMLFile(path)[key] for every key that is not None (labels and integer positions alike)",
         "keyword options: ml.dump / ml.dumps hand **kwargs to the codec - expected is the class method called with the same options (same text, or the same exception class, e.g. TypeError for an option it does not take); the readers take no **kwargs; the `key` argument of the writers is not part of the matrix",
     ]
     fams = thorough_families() if ctx.thorough else quick_families()
@@ -846,7 +886,7 @@ def run(ctx):
             # name shapes and call histories are about dispatch, not content: they are run on every other
             # family and skipped for the one 320 kB input (0.75 s per read)
             ctx.bound.setdefault("families_without_name_and_history_cells", []).append(f[0])
-        parts += [(f, sel) for sel in rsel + (("write",) if big else ("write", "history", "names", "options"))]
+        parts += [(f, sel) for sel in rsel + (("write",) if big else ("write", "history", "names", "options", "keys", "streams"))]
     parts += [((src, None, None, None), "extent") for src in c09_extra.EXTENT_SOURCES]
     ctx.pmap(run_family, parts)
 
@@ -867,6 +907,14 @@ def replay(ctx, case):
         cell = case["cell"]
         if cell["op"] == "read":
             run_reader_cell(ctx, fam, cell, case["given"])
+        elif cell["op"] == "key":
+            from mc.props import c09_extra
+
+            c09_extra.replay_key(ctx, fam, cell)
+        elif cell["op"] == "stream-kind":
+            from mc.props import c09_extra
+
+            c09_extra.run_stream_cell(ctx, fam, cell, case["given"])
         elif cell["op"] == "options":
             from mc.props import c09_extra
 
